@@ -322,6 +322,20 @@ def main():
             mbs = "some true"
         elif "permissions" in body:
             mbs = "some false"
+    # aggregate: the reserved-gap fold compares the names; find_build_id_note: owner and type tested together
+    fold_same = "none"
+    mg = re.search(r"if empty_page \{\s*let prev_prev_module = previous_modules\.first_mut\(\)\.unwrap\(\);\s*if\s+([^{]*)\{", mr)
+    if mg:
+        fold_same = "some true" if re.sub(r"\s+", "", mg.group(1)) == "pathname==prev_prev_module.name" else "some false"
+    mrd = read("src/linux/module_reader.rs")
+    note_both = "none"
+    mnb = re.search(r"fn find_build_id_note\(.*?\n    \}\n", mrd, re.S)
+    if mnb:
+        body = re.sub(r"//[^\n]*", "", mnb.group(0))
+        if re.search(r"if\s+note\.name\s*==\s*\"GNU\"\s*&&\s*note\.n_type\s*==\s*elf::note::NT_GNU_BUILD_ID\s*\{\s*return Ok\(Some\(note\.desc\.to_owned\(\)\)\);", body) and "let Ok(note) = note else { break };" in body:
+            note_both = "some true"
+        elif "NT_GNU_BUILD_ID" in body:
+            note_both = "some false"
     out = []
     out.append("/- GENERATED by gen/extract.py from /repo's source — do not edit. -/")
     out.append("namespace Mdw.Src\n")
@@ -359,6 +373,8 @@ def main():
     out.append(f"\n/-- the wait-and-reinject loop of `suspend_thread` is an unbounded `loop` left through SIGSTOP or an error only (none = not recognisable) -/\ndef attachLoopUnbounded : Option Bool := {attach_loop}")
     out.append(f"\n/-- `write_to_file` writes the pending image bytes before it hands the entry to `dump_dir_entry` (none = not recognisable) -/\ndef flushBeforeEntry : Option Bool := {flush_first}")
     out.append(f"\n/-- `may_be_stack` accepts a mapping that is readable or writable (`intersects`) (none = not recognisable) -/\ndef mayBeStackIntersects : Option Bool := {mbs}")
+    out.append(f"\n/-- the reserved-gap fold of `aggregate` requires the line behind the gap to carry the name of the mapping in front of it (none = not recognisable) -/\ndef foldRequiresSameName : Option Bool := {fold_same}")
+    out.append(f"\n/-- `find_build_id_note` returns the first note that is owned by GNU *and* of type 3, and goes on otherwise (none = not recognisable) -/\ndef noteScanOwnerAndType : Option Bool := {note_both}")
     out.append("\nend Mdw.Src\n")
     text = "\n".join(out)
     os.makedirs(os.path.dirname(OUT), exist_ok=True)
